@@ -18,19 +18,38 @@
 //! descriptors). A generous deadline (10 s) guards the wait; hitting it is the distinct observation
 //! `stuck`. Wall-clock values are never compared.
 //!
+//! Time: `sleep <ms>` is `run` that lasts at least `<ms>` of real time (the futures are polled whenever a timer
+//! or the reactor wakes them). On the unchanged code the passage of time changes nothing (a full channel
+//! only delays a report); durations are never compared, only WHAT has been reported is observed.
+//! `conn .. sot=<ms>` builds the connection with that `substream_open_timeout` (the one timeout a
+//! `TcpConnection` takes from configuration), `via=accept` parks the negotiated connection in a real
+//! `TcpTransport` (built with `connection_open_timeout` = 1 s) and `accept` drives the REAL future returned
+//! by `TcpTransport::accept()` — `report_connection_established`, then `executor.run(start())` with an
+//! executor that hands the spawned future to the adapter.
+//!
+//! `run`-like operations (`run`, `sleep`, `resume`, `drop_rx`, `accept`) poll the local futures, let every
+//! protocol that is not paused (and the manager) take what is in its channel, and repeat until nothing
+//! more arrives: a protocol that is not paused never holds up a report. All other operations do not poll
+//! the local futures.
+//!
 //! Operations:
-//! `conn ka=<Y|N>.. [remote=accept|refuse|stall]` | `run` | `downgrade <i>` | `upgrade <i>` |
+//! `conn ka=<Y|N>.. [remote=accept|refuse|stall] [cap=<n>] [mcap=<n>] [sot=<ms>] [via=accept]` | `run` |
+//! `sleep <ms>` | `accept` | `fill <i|m>` | `half_close <i>` | `read_sub <i>` | `remote_send <k>` |
+//! `downgrade <i>` | `upgrade <i>` |
 //! `drop_handle <i>` | `local_open <i>` | `force_close <i>` | `remote_open <j|x> hdr|full` |
 //! `remote_continue <k> <j|x>` | `remote_reset <k>` | `remote_close` | `remote_goaway` |
 //! `remote_policy <p>` |
-//! `drop_sub <i>` | `pause <i>` | `resume <i>` | `drop_rx <i>` | `arrange_race <k>`.
+//! `drop_sub <i>` | `pause <i|m>` | `resume <i|m>` | `drop_rx <i>` | `arrange_race <k>`.
 //!
 //! Observation after every operation:
 //! `<ret> loop=<run|ok|err> acc=<inbound streams accepted> strong=<y|n|-> p0=<msgs> .. m=<msgs>`
 //! where `<msgs>` are the messages the protocol / the manager received during this operation, in
 //! order (`E` established, `C` closed, `Oi`/`Oo` substream opened inbound/outbound, `X` open failure,
-//! `-` none, `x` receiver dropped) and `strong` tells whether the command channel still has a strong
-//! sender (`-` once the loop has returned).
+//! `F` filler, `-` none, `x` receiver dropped) and `strong` tells whether the command channel still has a
+//! strong sender (`-` once the loop has returned, or while no protocol has taken its handle yet).
+//! For a `via=accept` connection `loop` is `parked` (accept not called), `accepting` (the future is
+//! pending), `failed` (the future resolved `Err`: the connection was dropped, no loop), `run`, or `end`
+//! (the spawned task finished; its result is swallowed by the real code).
 
 use super::{NegotiatedConnection, TcpConnection};
 use crate::{
@@ -45,17 +64,19 @@ use crate::{
     substream::Substream,
     transport::{
         common::listener::AddressType,
-        manager::{ProtocolContext, TransportManagerEvent},
+        manager::{ProtocolContext, TransportHandle, TransportManagerEvent},
+        tcp::{config::Config as TcpConfig, TcpTransport},
+        Transport, TransportBuilder,
     },
     types::{protocol::ProtocolName, ConnectionId, SubstreamId},
     verif::VerifBox,
     BandwidthSink,
 };
 
-use futures::{AsyncWriteExt, StreamExt};
+use futures::{AsyncWriteExt, SinkExt, StreamExt};
 use tokio::{
     net::{TcpListener, TcpStream},
-    sync::mpsc::{channel, error::TryRecvError, Receiver},
+    sync::mpsc::{channel, error::TryRecvError, Receiver, Sender},
 };
 
 use std::{
@@ -73,6 +94,30 @@ use std::{
 
 const DEADLINE: Duration = Duration::from_secs(10);
 const MAX_PROTOCOLS: usize = 4;
+/// `connection_open_timeout` of the transport of a `via=accept` connection.
+const ACCEPT_OPEN_TIMEOUT: Duration = Duration::from_secs(1);
+/// Connection id of the filler events put into the manager's channel by `fill m`.
+const FILLER_CONNECTION: usize = 999_999;
+
+/// Options of `conn`.
+#[derive(Clone, Copy)]
+struct Opts {
+    cap: usize,
+    mcap: usize,
+    sot: Duration,
+    via_accept: bool,
+}
+
+impl Default for Opts {
+    fn default() -> Self {
+        Self {
+            cap: 64,
+            mcap: 64,
+            sot: Duration::from_secs(3600),
+            via_accept: false,
+        }
+    }
+}
 
 struct FlagWaker(AtomicBool);
 
@@ -168,6 +213,8 @@ enum Policy {
 
 struct Proto {
     rx: Option<Receiver<InnerTransportEvent>>,
+    /// For `fill`: somebody else's messages in the protocol's channel.
+    tx: Sender<InnerTransportEvent>,
     ka: SubstreamKeepAlive,
     handle: Option<ConnectionHandle>,
     subs: Vec<Substream>,
@@ -183,6 +230,8 @@ struct Remote {
     control: crate::yamux::Control,
     /// Substreams the remote opened, by index.
     streams: Arc<Mutex<HashMap<usize, YStream>>>,
+    /// Those on which a proposal for an installed protocol has been sent: what follows is data.
+    proposed: std::collections::HashSet<usize>,
     opened: usize,
     /// Substreams the local end opened, as delivered by the remote's connection driver.
     inbound: Arc<Mutex<Vec<YStream>>>,
@@ -191,7 +240,37 @@ struct Remote {
     socket: std::net::TcpStream,
 }
 
+type Spawned = Arc<Mutex<Vec<Pin<Box<dyn Future<Output = ()> + Send>>>>>;
+
+/// Executor handed to the real `TcpTransport`: what `accept()` spawns becomes a job of the adapter.
+struct Capture(Spawned);
+
+impl crate::executor::Executor for Capture {
+    fn run(&self, future: Pin<Box<dyn Future<Output = ()> + Send>>) {
+        self.0.lock().expect("lock").push(future);
+    }
+
+    fn run_with_name(&self, _: &'static str, future: Pin<Box<dyn Future<Output = ()> + Send>>) {
+        self.0.lock().expect("lock").push(future);
+    }
+}
+
+/// A `via=accept` connection: the negotiated connection is parked in a real `TcpTransport`.
+struct Accept {
+    transport: TcpTransport,
+    connection_id: ConnectionId,
+    called: bool,
+    /// How the future returned by `accept()` resolved.
+    result: Arc<Mutex<Option<bool>>>,
+    spawned: Spawned,
+    /// The spawned connection task has finished.
+    done: Arc<AtomicBool>,
+}
+
 struct Conn {
+    via: Option<Accept>,
+    mgr_tx: Sender<TransportManagerEvent>,
+    mgr_paused: bool,
     jobs: Vec<Job>,
     exit: Arc<Mutex<Option<bool>>>,
     counter: Arc<AtomicUsize>,
@@ -211,6 +290,7 @@ struct Conn {
 /// Loopback TCP connection with noise and yamux negotiated on both ends.
 async fn pair(
     id: usize,
+    sot: Duration,
 ) -> Option<(NegotiatedConnection, NegotiatedConnection, std::net::TcpStream, std::net::TcpStream)> {
     let listener = TcpListener::bind("127.0.0.1:0").await.ok()?;
     let address = listener.local_addr().ok()?;
@@ -236,7 +316,7 @@ async fn pair(
             Default::default(),
             crate::crypto::noise::MAX_READ_AHEAD_FACTOR,
             crate::crypto::noise::MAX_WRITE_BUFFER_SIZE,
-            timeout,
+            sot,
         ),
         TcpConnection::negotiate_connection(
             dialer,
@@ -255,22 +335,22 @@ async fn pair(
 }
 
 impl Conn {
-    async fn new(id: usize, kinds: &[SubstreamKeepAlive], policy: Policy) -> Option<Self> {
+    async fn new(id: usize, kinds: &[SubstreamKeepAlive], policy: Policy, opts: Opts) -> Option<Self> {
         let (local, remote, local_socket, remote_socket) =
-            tokio::time::timeout(DEADLINE, pair(id)).await.ok()??;
+            tokio::time::timeout(DEADLINE, pair(id, opts.sot)).await.ok()??;
         let connection_id = local.connection_id();
         let peer = local.peer();
         let endpoint = local.endpoint();
 
-        let (mgr_tx, mgr_rx) = channel(64);
+        let (mgr_tx, mgr_rx) = channel(opts.mcap);
         let mut protos = Vec::new();
         let mut contexts = HashMap::new();
         for (i, ka) in kinds.iter().enumerate() {
-            let (tx, rx) = channel(64);
+            let (tx, rx) = channel(opts.cap);
             contexts.insert(
                 proto_name(i),
                 ProtocolContext {
-                    tx,
+                    tx: tx.clone(),
                     codec: ProtocolCodec::Identity(32),
                     fallback_names: Vec::new(),
                     keep_alive: *ka,
@@ -278,6 +358,7 @@ impl Conn {
             );
             protos.push(Proto {
                 rx: Some(rx),
+                tx,
                 ka: *ka,
                 handle: None,
                 subs: Vec::new(),
@@ -286,20 +367,56 @@ impl Conn {
             });
         }
         let counter = Arc::new(AtomicUsize::new(0));
-        let mut protocol_set = ProtocolSet::new(connection_id, mgr_tx, counter.clone(), contexts);
-        protocol_set.report_connection_established(peer, endpoint).await.ok()?;
-        let connection =
-            TcpConnection::new(local, protocol_set, BandwidthSink::new(), counter.clone());
-
         let exit = Arc::new(Mutex::new(None));
         let mut jobs = Vec::new();
-        {
+        let via = if opts.via_accept {
+            // the real transport, with the timeouts it takes from configuration made small
+            let spawned: Spawned = Arc::new(Mutex::new(Vec::new()));
+            let handle = TransportHandle {
+                executor: Arc::new(Capture(spawned.clone())),
+                next_substream_id: counter.clone(),
+                next_connection_id: Default::default(),
+                keypair: key(1),
+                tx: mgr_tx.clone(),
+                bandwidth_sink: BandwidthSink::new(),
+                protocols: contexts,
+            };
+            let resolver = Arc::new(
+                hickory_resolver::TokioResolver::builder_tokio().ok()?.build().ok()?,
+            );
+            let (mut transport, _) = TcpTransport::new(
+                handle,
+                TcpConfig {
+                    listen_addresses: Vec::new(),
+                    connection_open_timeout: ACCEPT_OPEN_TIMEOUT,
+                    substream_open_timeout: opts.sot,
+                    ..Default::default()
+                },
+                resolver,
+            )
+            .ok()?;
+            transport.pending_open.insert(connection_id, local);
+            Some(Accept {
+                transport,
+                connection_id,
+                called: false,
+                result: Arc::new(Mutex::new(None)),
+                spawned,
+                done: Arc::new(AtomicBool::new(false)),
+            })
+        } else {
+            let mut protocol_set =
+                ProtocolSet::new(connection_id, mgr_tx.clone(), counter.clone(), contexts);
+            protocol_set.report_connection_established(peer, endpoint).await.ok()?;
+            let connection =
+                TcpConnection::new(local, protocol_set, BandwidthSink::new(), counter.clone());
             let exit = exit.clone();
             jobs.push(Job::new(true, async move {
                 let result = connection.start().await;
                 *exit.lock().expect("lock") = Some(result.is_ok());
             }));
-        }
+            None
+        };
 
         let NegotiatedConnection {
             connection: mut remote_connection,
@@ -317,6 +434,9 @@ impl Conn {
         }
 
         let mut conn = Self {
+            via,
+            mgr_tx,
+            mgr_paused: false,
             jobs,
             exit,
             counter,
@@ -327,6 +447,7 @@ impl Conn {
             remote: Some(Remote {
                 control,
                 streams: Arc::new(Mutex::new(HashMap::new())),
+                proposed: Default::default(),
                 opened: 0,
                 inbound,
                 kept: Arc::new(Mutex::new(Vec::new())),
@@ -343,15 +464,34 @@ impl Conn {
             conn.base = (a, b);
         }
         conn.drain();
-        conn.probe = conn.protos.iter().find_map(|p| p.handle.clone()).map(|mut h| {
-            h.close();
-            h
-        });
         Some(conn)
     }
 
+    /// How `start()` returned (`via=accept`: the spawned task has finished; its result is swallowed).
     fn exited(&self) -> Option<bool> {
-        *self.exit.lock().expect("lock")
+        match &self.via {
+            Some(accept) => accept.done.load(Ordering::SeqCst).then_some(true),
+            None => *self.exit.lock().expect("lock"),
+        }
+    }
+
+    /// Has the loop been started (`via=accept`: the accept future resolved `Ok`)?
+    fn up(&self) -> bool {
+        match &self.via {
+            Some(accept) => *accept.result.lock().expect("lock") == Some(true),
+            None => true,
+        }
+    }
+
+    /// Poll the local futures, let everybody who is not paused take what is in its channel, repeat
+    /// until nothing more arrives.
+    async fn run_like(&mut self) {
+        loop {
+            self.settle(true, |_| true).await;
+            if !self.drain() {
+                break;
+            }
+        }
     }
 
     /// `(sent(remote) - received(local), sent(local) - received(remote))`, plus unsent bytes.
@@ -393,6 +533,19 @@ impl Conn {
                 let mut cx = Context::from_waker(&waker);
                 if let Poll::Ready(()) = job.fut.as_mut().expect("checked").as_mut().poll(&mut cx) {
                     job.fut = None;
+                }
+            }
+            if local {
+                if let Some(accept) = self.via.as_ref() {
+                    let futures = std::mem::take(&mut *accept.spawned.lock().expect("lock"));
+                    for future in futures {
+                        let done = accept.done.clone();
+                        self.jobs.push(Job::new(true, async move {
+                            future.await;
+                            done.store(true, Ordering::SeqCst);
+                        }));
+                        progressed = true;
+                    }
                 }
             }
             if !progressed {
@@ -482,16 +635,25 @@ impl Conn {
         }
     }
 
-    /// Protocols (unless paused) and the manager take what is in their channels.
-    fn drain(&mut self) {
+    /// Protocols and the manager (unless paused) take what is in their channels. Returns whether
+    /// anything was taken.
+    fn drain(&mut self) -> bool {
+        let mut taken = false;
         for proto in self.protos.iter_mut() {
             if proto.paused {
                 continue;
             }
             let Some(rx) = proto.rx.as_mut() else { continue };
             loop {
-                match rx.try_recv() {
+                let event = rx.try_recv();
+                taken |= event.is_ok();
+                match event {
                     Ok(InnerTransportEvent::ConnectionEstablished { sender, .. }) => {
+                        if self.probe.is_none() {
+                            let mut probe = sender.clone();
+                            probe.close();
+                            self.probe = Some(probe);
+                        }
                         proto.handle = Some(sender);
                         proto.seen.push("E");
                     }
@@ -511,29 +673,45 @@ impl Conn {
                         });
                     }
                     Ok(InnerTransportEvent::SubstreamOpenFailure { .. }) => proto.seen.push("X"),
+                    Ok(InnerTransportEvent::DialFailure { .. }) => proto.seen.push("F"),
                     Ok(_) => proto.seen.push("?"),
                     Err(TryRecvError::Empty) | Err(TryRecvError::Disconnected) => break,
                 }
             }
         }
-        loop {
+        while !self.mgr_paused {
             match self.mgr_rx.try_recv() {
-                Ok(TransportManagerEvent::ConnectionClosed { .. }) => self.mgr_seen.push("C"),
-                Ok(_) => self.mgr_seen.push("?"),
+                Ok(TransportManagerEvent::ConnectionClosed { connection, .. }) => {
+                    taken = true;
+                    self.mgr_seen.push(if connection == ConnectionId::from(FILLER_CONNECTION) {
+                        "F"
+                    } else {
+                        "C"
+                    });
+                }
                 Err(_) => break,
             }
         }
+        taken
     }
 
     fn observe(&mut self, ret: &str) -> String {
         self.drain();
-        let state = match self.exited() {
-            None => "run",
-            Some(true) => "ok",
-            Some(false) => "err",
+        let state = match (&self.via, self.exited()) {
+            (None, None) => "run",
+            (None, Some(true)) => "ok",
+            (None, Some(false)) => "err",
+            (Some(accept), exited) => match (accept.called, *accept.result.lock().expect("lock")) {
+                (false, _) => "parked",
+                (true, None) => "accepting",
+                (true, Some(false)) => "failed",
+                (true, Some(true)) if exited.is_some() => "end",
+                (true, Some(true)) => "run",
+            },
         };
         let strong = match (self.exited(), &self.probe) {
             (Some(_), _) | (_, None) => "-",
+            _ if !self.up() => "-",
             (None, Some(probe)) =>
                 if probe.try_get_permit().is_some() {
                     "y"
@@ -631,7 +809,7 @@ impl LoopBox {
         let mut outcomes: HashMap<String, usize> = HashMap::new();
         for _ in 0..rounds {
             self.conns += 1;
-            let Some(mut conn) = Conn::new(self.conns, &[SubstreamKeepAlive::Yes], Policy::Accept).await
+            let Some(mut conn) = Conn::new(self.conns, &[SubstreamKeepAlive::Yes], Policy::Accept, Opts::default()).await
             else {
                 *outcomes.entry("inconclusive".into()).or_default() += 1;
                 continue;
@@ -679,8 +857,22 @@ impl LoopBox {
             }
             let mut kinds = Vec::new();
             let mut policy = Policy::Accept;
+            let mut opts = Opts::default();
             for arg in args {
                 match arg.split_once('=') {
+                    Some(("cap", v)) => match v.parse::<usize>() {
+                        Ok(cap) if (1..=64).contains(&cap) => opts.cap = cap,
+                        _ => return "bad-op".into(),
+                    },
+                    Some(("mcap", v)) => match v.parse::<usize>() {
+                        Ok(cap) if (1..=64).contains(&cap) => opts.mcap = cap,
+                        _ => return "bad-op".into(),
+                    },
+                    Some(("sot", v)) => match v.parse::<u64>() {
+                        Ok(ms) if (100..=3_600_000).contains(&ms) => opts.sot = Duration::from_millis(ms),
+                        _ => return "bad-op".into(),
+                    },
+                    Some(("via", "accept")) => opts.via_accept = true,
                     Some(("ka", v)) =>
                         for ch in v.chars() {
                             kinds.push(match ch {
@@ -699,7 +891,7 @@ impl LoopBox {
                 return "bad-op".into();
             }
             self.conns += 1;
-            return match Conn::new(self.conns, &kinds, policy).await {
+            return match Conn::new(self.conns, &kinds, policy, opts).await {
                 Some(mut conn) => {
                     let out = conn.observe("ok");
                     self.conn = Some(conn);
@@ -718,8 +910,113 @@ impl LoopBox {
         let n = conn.protos.len();
         let ret: String = match t {
             ["run"] => {
-                conn.settle(true, |_| true).await;
+                conn.run_like().await;
                 "ok".into()
+            }
+            ["sleep", ms] => match ms.parse::<u64>() {
+                Ok(ms) if ms <= 10_000 => {
+                    // real time passes; whatever a timer or the reactor wakes is polled
+                    let until = Instant::now() + Duration::from_millis(ms);
+                    loop {
+                        conn.run_like().await;
+                        let now = Instant::now();
+                        if now >= until {
+                            break;
+                        }
+                        tokio::time::sleep((until - now).min(Duration::from_millis(20))).await;
+                    }
+                    "ok".into()
+                }
+                _ => return "bad-op".into(),
+            },
+            ["accept"] => match conn.via.as_mut() {
+                Some(accept) if !accept.called => {
+                    accept.called = true;
+                    match accept.transport.accept(accept.connection_id) {
+                        Ok(future) => {
+                            let result = accept.result.clone();
+                            conn.jobs.push(Job::new(true, async move {
+                                let outcome = future.await;
+                                *result.lock().expect("lock") = Some(outcome.is_ok());
+                            }));
+                        }
+                        Err(_) => *accept.result.lock().expect("lock") = Some(false),
+                    }
+                    conn.run_like().await;
+                    "ok".into()
+                }
+                _ => "none".into(),
+            },
+            ["fill", "m"] => {
+                let mut sent = false;
+                while conn
+                    .mgr_tx
+                    .try_send(TransportManagerEvent::ConnectionClosed {
+                        peer: crate::verif::peer(9),
+                        connection: ConnectionId::from(FILLER_CONNECTION),
+                    })
+                    .is_ok()
+                {
+                    sent = true;
+                }
+                if sent { "ok" } else { "full" }.into()
+            }
+            ["fill", i] => match index(i).filter(|i| *i < n) {
+                Some(i) => {
+                    let mut sent = false;
+                    while conn.protos[i]
+                        .tx
+                        .try_send(InnerTransportEvent::DialFailure {
+                            peer: crate::verif::peer(9),
+                            addresses: Vec::new(),
+                        })
+                        .is_ok()
+                    {
+                        sent = true;
+                    }
+                    if sent { "ok" } else { "full" }.into()
+                }
+                None => return "bad-op".into(),
+            },
+            ["half_close", i] => match index(i).filter(|i| *i < n) {
+                // `Sink::poll_close` -> `AsyncWrite::poll_shutdown`: the write half is shut down, the
+                // protocol keeps the substream (it still reads from it)
+                Some(i) => match conn.protos[i].subs.first_mut() {
+                    Some(substream) => {
+                        let ret = match futures::FutureExt::now_or_never(substream.close()) {
+                            Some(Ok(())) => "ok",
+                            Some(Err(_)) => "err",
+                            None => "pending",
+                        };
+                        conn.settle(false, |_| true).await;
+                        ret.into()
+                    }
+                    None => "none".into(),
+                },
+                None => return "bad-op".into(),
+            },
+            ["read_sub", i] => match index(i).filter(|i| *i < n) {
+                Some(i) => match conn.protos[i].subs.first_mut() {
+                    Some(substream) => match futures::FutureExt::now_or_never(substream.next()) {
+                        Some(Some(Ok(_))) => "data".into(),
+                        Some(Some(Err(_))) => "err".into(),
+                        Some(None) => "eof".into(),
+                        None => "pending".into(),
+                    },
+                    None => "none".into(),
+                },
+                None => return "bad-op".into(),
+            },
+            ["remote_send", k] => {
+                let Some(k) = index(k) else { return "bad-op".into() };
+                // data only after a proposal the listener accepts: anything else would be read as a proposal
+                let proposed = conn.remote.as_ref().map_or(false, |r| r.proposed.contains(&k));
+                if proposed && conn.remote_write(k, vec![7u8; 32]) {
+                    conn.settle(false, |_| true).await;
+                    "ok".into()
+                } else {
+                    "none".into()
+                }
             }
             ["downgrade", i] => match index(i).filter(|i| *i < n) {
                 Some(i) => match conn.protos[i].handle.as_mut() {
@@ -787,6 +1084,7 @@ impl LoopBox {
                 None => return "bad-op".into(),
             },
             ["remote_open", name, how] => {
+                let installed = name.parse::<usize>().map_or(false, |i| i < n) && *how == "full";
                 let Some(name) = wire_name(name) else { return "bad-op".into() };
                 let mut bytes = MSS_HEADER.to_vec();
                 match *how {
@@ -796,6 +1094,9 @@ impl LoopBox {
                 }
                 match conn.remote_open(bytes) {
                     Some(k) => {
+                        if installed {
+                            conn.remote.as_mut().expect("opened").proposed.insert(k);
+                        }
                         conn.settle(false, |_| true).await;
                         format!("s{k}")
                     }
@@ -803,10 +1104,14 @@ impl LoopBox {
                 }
             }
             ["remote_continue", k, name] => {
+                let installed = name.parse::<usize>().map_or(false, |i| i < n);
                 let (Some(k), Some(name)) = (index(k), wire_name(name)) else {
                     return "bad-op".into();
                 };
                 if conn.remote_write(k, mss_proposal(&name)) {
+                    if installed {
+                        conn.remote.as_mut().expect("written").proposed.insert(k);
+                    }
                     conn.settle(false, |_| true).await;
                     "ok".into()
                 } else {
@@ -880,9 +1185,20 @@ impl LoopBox {
                     },
                 None => return "bad-op".into(),
             },
+            ["pause", "m"] | ["resume", "m"] => {
+                conn.mgr_paused = t[0] == "pause";
+                if !conn.mgr_paused {
+                    conn.run_like().await;
+                }
+                "ok".into()
+            }
             ["pause", i] | ["resume", i] => match index(i).filter(|i| *i < n) {
                 Some(i) => {
                     conn.protos[i].paused = t[0] == "pause";
+                    if !conn.protos[i].paused {
+                        // the protocol catches up: whoever waited for room in its channel goes on
+                        conn.run_like().await;
+                    }
                     "ok".into()
                 }
                 None => return "bad-op".into(),
@@ -893,7 +1209,8 @@ impl LoopBox {
                         drop(rx);
                         conn.protos[i].handle = None;
                         conn.protos[i].subs.clear();
-                        conn.settle(false, |_| true).await;
+                        // a send waiting for room in this channel fails now
+                        conn.run_like().await;
                         "ok".into()
                     }
                     None => "none".into(),
